@@ -24,26 +24,36 @@ PID = "C16"
 
 def thread_jobs(tier, seed):
     jobs = []
-    profs = ["dedup", "dedupdirty", "ctxsync", "syncfaults", "session", "overridesync"]
+    profs = ["dedup", "dedupdirty", "ctxsync", "syncfaults", "session", "overridesync", "ival"]
     n = 3 if tier == "quick" else 20
     jid = 0
     for nthreads in (2, 4, 8, 16):
         for prof in profs:
-            base = dict(plang.PROFILES[prof], nkinds=(1, 1), ntasks=(4, 9))
+            own = prof == "ival"          # this family uses the harness's own batch classes, two kinds (see "monitor" below)
+            base = dict(plang.PROFILES[prof], nkinds=(2, 2) if own else (1, 1), ntasks=(4, 9))
             for i in range(n):
                 import random
                 rng = random.Random("c16/%s/%d/%d/%d" % (prof, seed, nthreads, i))
                 same = plang.Gen(rng, base).build()
-                same["kinds"][0].update(impl="debug", flush="ok")
+                if not own:
+                    same["kinds"][0].update(impl="debug", flush="ok")
+                else:
+                    same["kinds"][0]["base"], same["kinds"][1]["base"] = 0, 1      # no ties: the flush order is determined
                 if i % 2 == 0:
                     progs = [same] * nthreads            # the same program (same dedup keys) on every thread
                 else:
                     progs = []
                     for h in range(nthreads):
                         p = plang.Gen(random.Random("c16/%s/%d/%d/%d/%d" % (prof, seed, nthreads, i, h)), base).build()
-                        p["kinds"][0].update(impl="debug", flush="ok")
+                        if not own:
+                            p["kinds"][0].update(impl="debug", flush="ok")
+                        else:
+                            p["kinds"][0]["base"], p["kinds"][1]["base"] = 0, 1
                         progs.append(p)
                 jobs.append({"id": jid, "progs": progs, "options": {"COLLECT_PERF_STATS": True} if i % 3 != 2 else None,
+                             # the built-in DebugBatch has no flush-begin observation point: when task code flushes it directly
+                             # (item.value()), the monitor cannot tell the flush from a stray completion - compare with the solo run only
+                             "monitor": True,
                              "rounds": 3 if tier == "quick" else 6})
                 jid += 1
     return jobs
@@ -110,6 +120,10 @@ def main():
                 solo_bad = [s for s in r["solo"] if s is None or s["crash"]]
                 if solo_bad:
                     raise MachineryError("solo run crashed: %s" % (solo_bad[0] and solo_bad[0]["crash"]))
+                if r.get("main_prof"):
+                    verdict.report("C16.prof", "%dthreads" % len(job["progs"]),
+                                   {"progs": job["progs"], "options": job["options"], "build": bname,
+                                    "records_of_worker_threads_found_in_the_main_threads_profiler_buffer": r["main_prof"][:6]})
                 for rd, conc in enumerate(r["conc"]):
                     for h, c in enumerate(conc):
                         if c is None:
@@ -131,7 +145,8 @@ def main():
                         elif c.get("prof") != solo.get("prof"):
                             # the profile records (names carry the per-thread task / item counters) are this thread's own
                             verdict.report("C16.prof", trig, dict(case, alone=solo.get("prof", [])[:6], concurrent=c.get("prof", [])[:6]))
-                        traces.append({"id": len(traces), "prog": job["progs"][h], "events": c["events"], "case": case, "trig": trig})
+                        if job.get("monitor", True):
+                            traces.append({"id": len(traces), "prog": job["progs"][h], "events": c["events"], "case": case, "trig": trig})
         v, st = pipeline.validate(traces, sc)
         nobs = 0
         for t in traces:
